@@ -522,8 +522,8 @@ pub fn run(cfg: &RunCfg) -> CheckReport {
     rep.part("expiry", json!({"scopes": space.describe()}), ex);
 
     let sizes: Vec<usize> = match cfg.tier {
-        Tier::Quick => vec![64, 128],
-        Tier::Thorough => vec![64, 128, 256, 512],
+        Tier::Quick => vec![64, 128, 256],
+        Tier::Thorough => vec![64, 128, 256, 512, 1024],
     };
     let mut fams = vec![];
     for &n in &sizes {
